@@ -401,10 +401,9 @@ class SchemaValidator:
                 if utils.is_template_entity_reference(
                     fulfiller_action, "context", "thread_group"
                 ):
-                    if (
-                        "context" not in object_promise
-                        or object_promise["context"] != fulfiller_action["context"]
-                    ):
+                    if "context" not in object_promise or self._normalize_ref(
+                        object_promise["context"]
+                    ) != self._normalize_ref(fulfiller_action["context"]):
                         errors += context_error
                 elif "context" in object_promise:
                     errors += context_error
@@ -453,8 +452,12 @@ class SchemaValidator:
             if "name" in attribute:
                 attributes[attribute["name"]] = attribute
 
-        object_promise_ref = action["object_promise"]
+        # the maps collected before validation are keyed by id-based references
+        object_promise_ref = self._normalize_ref(action["object_promise"])
         object_promise = self._resolve_global_ref(object_promise_ref)
+        action_context_ref = (
+            self._normalize_ref(action["context"]) if "context" in action else None
+        )
 
         action_ref = utils.as_ref(action["id"], "action", value_is_id=True)
         errors = []
@@ -561,23 +564,23 @@ class SchemaValidator:
                             ):
                                 # object type validation will have caught this already
                                 continue
-                            elif (
+                            elif self._normalize_ref(
                                 object_promise_edge["object_type"]
-                                != attributes[key]["object_type"]
-                            ):
+                            ) != self._normalize_ref(attributes[key]["object_type"]):
                                 errors += [
                                     f"{self._context(f'{path}.operation.default_edges.{key}')}: object type of referenced object promise does not match the object type definition: {json.dumps(edge_ref)}"
                                     + f"; expected {json.dumps(attributes[key]['object_type'])}, got {json.dumps(object_promise_edge['object_type'])}"
                                 ]
                             else:
+                                edge_promise_ref = self._normalize_ref(edge_ref)
                                 if (
-                                    edge_ref
+                                    edge_promise_ref
                                     not in self._object_promise_fulfillment_action_refs
                                     or self.validate_has_ancestor(
                                         path,
                                         descendant_ref=action_ref,
                                         ancestor_ref=self._object_promise_fulfillment_action_refs[
-                                            edge_ref
+                                            edge_promise_ref
                                         ],
                                     )
                                     != []
@@ -589,8 +592,8 @@ class SchemaValidator:
                 if utils.is_template_entity_reference(
                     operation, "appends_objects_to", "object_promise"
                 ):
-                    appends_to_object_promise_ref = utils.reduce_ref(
-                        operation["appends_objects_to"]
+                    appends_to_object_promise_ref = self._normalize_ref(
+                        utils.reduce_ref(operation["appends_objects_to"])
                     )
                     if (
                         appends_to_object_promise_ref
@@ -648,9 +651,7 @@ class SchemaValidator:
                         ]
 
                     # appender and appendee must have the same context
-                    appends_from_context = (
-                        action["context"] if "context" in action else None
-                    )
+                    appends_from_context = action_context_ref
                     appends_to_context = (
                         self._object_promise_contexts[appends_to_object_promise_ref]
                         if appends_to_object_promise_ref
@@ -697,13 +698,7 @@ class SchemaValidator:
                 context_error = [
                     f"{self._context(f'{path}')}: cannot edit an object promise outside of the context in which the object promise is fulfilled (fulfillment context: {json.dumps(self._object_promise_contexts[object_promise_ref])})"
                 ]
-                if "context" in action:
-                    if (
-                        self._object_promise_contexts[object_promise_ref]
-                        != action["context"]
-                    ):
-                        errors += context_error
-                elif self._object_promise_contexts[object_promise_ref] != None:
+                if self._object_promise_contexts[object_promise_ref] != action_context_ref:
                     errors += context_error
 
         return errors
@@ -732,12 +727,13 @@ class SchemaValidator:
                 ):
                     return error
 
-                if action["context"] not in self._thread_group_checkpoint_references:
+                action_context_ref = self._normalize_ref(action["context"])
+                if action_context_ref not in self._thread_group_checkpoint_references:
                     return error
                 else:
                     # ancestors of the thread group are implicit ancestors of the action
                     descendant_type = "thread_group"
-                    descendant_ref = action["context"]
+                    descendant_ref = action_context_ref
         elif (
             descendant_type == "thread_group"
             and descendant_ref not in self._thread_group_checkpoint_references
@@ -756,7 +752,7 @@ class SchemaValidator:
                 )  # prevent circular dependency false positive
 
         def validate_has_ancestor_recursive(checkpoint_ref, ancestor_ref):
-            ancestor_ref = utils.reduce_ref(ancestor_ref)
+            ancestor_ref = self._normalize_ref(utils.reduce_ref(ancestor_ref))
             if utils.parse_ref_type(ancestor_ref) == "object_promise":
                 # convert object promise ref to its fulfiller action ref
                 if ancestor_ref not in self._object_promise_fulfillment_action_refs:
@@ -816,6 +812,7 @@ class SchemaValidator:
                         if action_ref is None:
                             continue
 
+                        action_ref = self._normalize_ref(action_ref)
                         if (
                             action_ref == ancestor_ref
                             or action_ref not in self._action_checkpoint_refs
@@ -830,7 +827,9 @@ class SchemaValidator:
                 if utils.is_template_entity_reference(
                     dependency, "checkpoint", "checkpoint"
                 ):
-                    return checkpoint_has_ancestor(dependency["checkpoint"])
+                    return checkpoint_has_ancestor(
+                        self._normalize_ref(dependency["checkpoint"])
+                    )
 
                 return False
 
@@ -987,7 +986,7 @@ class SchemaValidator:
             ):
                 continue
 
-            object_promise_ref = action["object_promise"]
+            object_promise_ref = self._normalize_ref(action["object_promise"])
             object_promise = self._resolve_global_ref(object_promise_ref)
             if (
                 object_promise is None
@@ -1021,8 +1020,15 @@ class SchemaValidator:
             ]
 
         field_thread_group_ref = self._normalize_ref(field["context"])
-        checkpoint_thread_group_schema_id = utils.parse_schema_id(checkpoint["context"])
-        checkpoint_thread_group_id = utils.parse_ref_id(checkpoint["context"])
+        if field_thread_group_ref not in self._thread_groups:
+            # ref validation will have caught this
+            return []
+
+        checkpoint_thread_group_ref = self._normalize_ref(checkpoint["context"])
+        checkpoint_thread_group_schema_id = utils.parse_schema_id(
+            checkpoint_thread_group_ref
+        )
+        checkpoint_thread_group_id = utils.parse_ref_id(checkpoint_thread_group_ref)
         if not self._thread_groups[field_thread_group_ref].has_access_to_context(
             checkpoint_thread_group_schema_id, checkpoint_thread_group_id
         ):
@@ -1044,10 +1050,16 @@ class SchemaValidator:
 
     def validate_checkpoint_context(self, path, checkpoint):
         checkpoint_context_ref = (
-            checkpoint["context"]
+            self._normalize_ref(checkpoint["context"])
             if utils.is_template_entity_reference(checkpoint, "context", "thread_group")
             else None
         )
+        if (
+            checkpoint_context_ref is not None
+            and checkpoint_context_ref not in self._thread_groups
+        ):
+            # ref validation will have caught this
+            return []
 
         context_mismatches = []
         for dependency in checkpoint["dependencies"]:
@@ -1070,11 +1082,14 @@ class SchemaValidator:
                         ]
                     else:
                         # the threaded context must be the same as or a parent of the parent checkpoint's context
-                        referenced_checkpoint_context_schema_id = utils.parse_schema_id(
+                        referenced_checkpoint_context_ref = self._normalize_ref(
                             referenced_checkpoint["context"]
                         )
+                        referenced_checkpoint_context_schema_id = utils.parse_schema_id(
+                            referenced_checkpoint_context_ref
+                        )
                         referenced_checkpoint_context_id = utils.parse_ref_id(
-                            referenced_checkpoint["context"]
+                            referenced_checkpoint_context_ref
                         )
 
                         if not self._thread_groups[
@@ -1106,11 +1121,14 @@ class SchemaValidator:
                     ):
                         continue
 
+                    referenced_action_context_ref = self._normalize_ref(
+                        referenced_action["context"]
+                    )
                     if checkpoint_context_ref is None or not self._thread_groups[
                         checkpoint_context_ref
                     ].has_access_to_context(
-                        utils.parse_schema_id(referenced_action["context"]),
-                        utils.parse_ref_id(referenced_action["context"]),
+                        utils.parse_schema_id(referenced_action_context_ref),
+                        utils.parse_ref_id(referenced_action_context_ref),
                     ):
                         context_mismatches += [
                             f"{self._context(path)}: cannot depend on threaded action: {json.dumps(dependency['compare'][operand]['ref'])}"
@@ -1148,7 +1166,9 @@ class SchemaValidator:
                     thread_group, "context", "thread_group"
                 ):
                     # resolve all parent thread groups first
-                    parent_thread_group_ref = thread_group["context"]
+                    parent_thread_group_ref = self._normalize_ref(
+                        thread_group["context"]
+                    )
                     if parent_thread_group_ref not in self._thread_groups:
                         return None  # cannot resolve parent thread scope
 
@@ -1341,7 +1361,7 @@ class SchemaValidator:
         ):
             attributes[attribute["name"]] = attribute
 
-        object_promise_ref = action["object_promise"]
+        object_promise_ref = self._normalize_ref(action["object_promise"])
 
         operation = action["operation"]
 
@@ -1388,14 +1408,18 @@ class SchemaValidator:
             # there will already be validation errors for the missing field
             return []
 
-        object_promise_ref = field["object_promise"]
+        object_promise_ref = self._normalize_ref(field["object_promise"])
         object_promise = self._resolve_global_ref(object_promise_ref)
         if object_promise is None:
             return [
                 f"{self._context(path)}.object_promise: could not resolve object promise"
             ]
 
-        object_promise_context = self._object_promise_contexts[object_promise_ref]
+        object_promise_context = (
+            self._object_promise_contexts[object_promise_ref]
+            if object_promise_ref in self._object_promise_contexts
+            else None
+        )
         pipeline = Pipeline(
             object_promise_ref=object_promise_ref,
             thread_group_ref=object_promise_context
@@ -1552,9 +1576,9 @@ class SchemaValidator:
                 # warn if the global ref refers to the local object
                 if utils.is_template_entity_reference(
                     traversal, "ref", "object_promise"
-                ) and utils.parse_ref_id(ref) == utils.parse_ref_id(
-                    pipeline.object_promise_ref
-                ):
+                ) and self._normalize_ref(
+                    utils.reduce_ref(ref)
+                ) == pipeline.object_promise_ref:
                     self.warnings.append(
                         f'{self._context(f"{path}.ref")}: global ref refers to the local object -- consider using "$_object" instead to reference the local object'
                     )
@@ -1735,7 +1759,8 @@ class SchemaValidator:
             if (
                 object_promise is not None
                 and "id" in object_promise
-                and utils.reduce_ref(apply["from"]) == pipeline.object_promise_ref
+                and self._normalize_ref(utils.reduce_ref(apply["from"]))
+                == pipeline.object_promise_ref
             ):
                 return local_input_error
         elif is_local_variable(apply["from"]):
@@ -1977,6 +2002,11 @@ class SchemaValidator:
     def _resolve_type_from_object_promise_ref(
         self, object_promise_ref, path_from_ref, resolution_context_thread_group_ref
     ):
+        # the maps collected before validation are keyed by id-based references
+        object_promise_ref = self._normalize_ref(object_promise_ref)
+        resolution_context_thread_group_ref = self._normalize_ref(
+            resolution_context_thread_group_ref
+        )
         object_promise = self._resolve_global_ref(object_promise_ref)
         if object_promise is None:
             return None
@@ -2023,7 +2053,9 @@ class SchemaValidator:
             type_details = TypeDetails(
                 is_list=is_list_of_object_promises,
                 item_type="OBJECT",
-                object_type_ref=object_promise["object_type"],
+                object_type_ref=self._normalize_ref(
+                    object_promise["object_type"], to_alias=True
+                ),
             )
         else:
             raise Exception(
@@ -2170,13 +2202,17 @@ class SchemaValidator:
                     type_details = TypeDetails(
                         is_list=True,
                         item_type="OBJECT",
-                        object_type_ref=attribute_definition["object_type"],
+                        object_type_ref=self._normalize_ref(
+                            attribute_definition["object_type"], to_alias=True
+                        ),
                     )
                 elif attribute_definition["type"] == "EDGE":
                     type_details = TypeDetails(
                         is_list=type_details.is_list,
                         item_type="OBJECT",
-                        object_type_ref=attribute_definition["object_type"],
+                        object_type_ref=self._normalize_ref(
+                            attribute_definition["object_type"], to_alias=True
+                        ),
                     )
             elif "_LIST" in attribute_definition["type"]:
                 if type_details.is_list:
